@@ -5,6 +5,7 @@ sys.path.insert(0, os.path.dirname(os.path.dirname(os.path.abspath(__file__))))
 from vlib.core import *
 src = sys.argv[1].encode().decode("unicode_escape").encode("latin-1")
 args = sys.argv[2:] or ["-o", "out.hex", "a.asm"]
+from vlib import framework; framework.build()
 ex = Executor()
 t = time.time()
 o = ex.call(build_request(MODE_ASM, ["naken_asm"] + args, {"/sim/w/a.asm": src}, cpu_ms=int(os.environ.get("CPU_MS", "5000"))))
